@@ -170,6 +170,18 @@ func (p *prov) compute(v ssa.Value, d int) []string {
 		return []string{"FV(" + x.Name() + ")"}
 	case *ssa.Alloc:
 		if x.Heap {
+			// a struct literal built in an inlined helper and handed back by address: described by what it holds
+			if len(p.binds) > 0 {
+				if _, isStruct := x.Type().Underlying().(*types.Pointer).Elem().Underlying().(*types.Struct); isStruct {
+					var out []string
+					for _, l := range p.loadFrom(x, nil, d) {
+						out = append(out, "&"+l)
+					}
+					if len(out) > 0 {
+						return out
+					}
+				}
+			}
 			return []string{"new(" + typeShort(c, x.Type().Underlying().(*types.Pointer).Elem()) + ")@" + c.FuncKey(x.Parent())}
 		}
 		// address of a local: what it holds
@@ -771,3 +783,52 @@ func definitelyNonNilErr(v ssa.Value, at *ssa.BasicBlock) bool {
 	}
 	return false
 }
+
+// frame: a function analysed in the frame of a root function: the root itself (site nil) or a module helper the root
+// calls, with the helper's parameters bound to the origins of the arguments at that call.
+type frame struct {
+	fn   *ssa.Function
+	site ssa.CallInstruction // the call in the root function (for a nested helper: the outermost call)
+}
+
+// inFrames runs visit for root and for the module helpers it calls statically (up to depth levels), with the parameter
+// bindings pushed so that origins computed inside visit are expressed in root's terms. Helpers that are entry points of
+// their own (called from elsewhere too) are still visited: what matters is what happens on root's behalf.
+func (p *prov) inFrames(root *ssa.Function, depth int, skip func(*ssa.Function) bool, visit func(fr frame)) {
+	visit(frame{root, nil})
+	var rec func(f *ssa.Function, outer ssa.CallInstruction, d int, seen map[*ssa.Function]bool)
+	rec = func(f *ssa.Function, outer ssa.CallInstruction, d int, seen map[*ssa.Function]bool) {
+		if d >= depth {
+			return
+		}
+		for _, ci := range callsIn(f) {
+			g := ci.Common().StaticCallee()
+			if g == nil || !p.c.InModule(g) || g.Blocks == nil || seen[g] || (skip != nil && skip(g)) {
+				continue
+			}
+			if _, isCall := ci.(*ssa.Call); !isCall {
+				continue
+			}
+			bind := map[*ssa.Parameter][]string{}
+			for i, prm := range g.Params {
+				if i < len(ci.Common().Args) {
+					bind[prm] = uniq(p.origins(ci.Common().Args[i], 0))
+				}
+			}
+			site := outer
+			if site == nil {
+				site = ci
+			}
+			p.binds = append(p.binds, bind)
+			seen[g] = true
+			visit(frame{g, site})
+			rec(g, site, d+1, seen)
+			delete(seen, g)
+			p.binds = p.binds[:len(p.binds)-1]
+		}
+	}
+	rec(root, nil, 0, map[*ssa.Function]bool{root: true})
+}
+
+// here: origins of v in the current frame (bindings of enclosing inFrames calls apply).
+func (p *prov) here(v ssa.Value) []string { return uniq(p.origins(v, 0)) }
